@@ -138,6 +138,19 @@ func opSeqinfo(f []string) string {
 		outs[so] = true
 		first = so
 	}
+	// once more confined to a single CPU (a 1-vCPU host): same answer, no deadlock
+	if ts, err := exec.LookPath("taskset"); err == nil {
+		so, se, code := runCmd(ts, append([]string{"-c", "0", bin}, jsonArgs...), stdin, nil, 20*time.Second)
+		if code != 0 {
+			return "crash=" + strings.Map(func(r rune) rune {
+				if r == ';' || r == '=' || r == '\n' || r == '\t' {
+					return ' '
+				}
+				return r
+			}, fmt.Sprintf("one cpu: exit %d %s", code, firstLine(se)))
+		}
+		outs[so] = true
+	}
 	var m map[string]infoResult
 	if err := json.Unmarshal([]byte(first), &m); err != nil {
 		return "badjson=1"
@@ -215,6 +228,14 @@ func genSeqinfo(r *Rand, n int, thorough bool, emit func(string)) {
 				p = "/d/b.1-3#.e"
 			}
 			pats = append(pats, p)
+		}
+		if r.Chance(1, 12) {
+			// a pattern longer than a 4096-byte read buffer (a heavily fragmented range)
+			var fr []string
+			for v, target := 1001, r.Range(4100, 9000); len(fr)*5 < target; v += 2 {
+				fr = append(fr, strconv.Itoa(v))
+			}
+			pats[r.Intn(len(pats))] = "/d/long." + strings.Join(fr, ",") + "#.exr"
 		}
 		mode := "a"
 		if r.Chance(1, 3) {
@@ -506,8 +527,37 @@ func genSeqlsShots(r *Rand) string {
 	return fmt.Sprintf("seqls %s %s %s", flags, strings.Join(roots, ","), strings.Join(nodes, ","))
 }
 
+// genSeqlsLong: one directory with 30-45 sub-directories whose names are 237-255 bytes long (a
+// directory entry near the maximum record size), each holding a short sequence
+func genSeqlsLong(r *Rand) string {
+	var nodes []string
+	nodes = append(nodes, hx("big")+":d")
+	ln := r.Range(237, 255)
+	nd := r.Range(30, 45)
+	for d := 0; d < nd; d++ {
+		name := fmt.Sprintf("s%03d_", d)
+		name += strings.Repeat("x", ln-len(name))
+		nodes = append(nodes, hx("big/"+name)+":d")
+		nodes = append(nodes, hx("big/"+name+"/f.1.exr")+":f")
+		if r.Chance(1, 3) {
+			nodes = append(nodes, hx("big/"+name+"/f.2.exr")+":f")
+		}
+	}
+	flags := "r"
+	for _, c := range "as1f" {
+		if r.Chance(1, 2) {
+			flags += string(c)
+		}
+	}
+	return fmt.Sprintf("seqls %s %s %s", flags, hx(r.Pick([]string{"big", ".", "/T/big"})), strings.Join(nodes, ","))
+}
+
 func genSeqls(r *Rand, n int, thorough bool, emit func(string)) {
 	for i := 0; i < n; i++ {
+		if i%25 == 13 {
+			emit(genSeqlsLong(r))
+			continue
+		}
 		if i%10 == 9 {
 			emit(genSeqlsWide(r))
 			continue
